@@ -52,3 +52,9 @@ Theorem C06_exec_run_is_proof_model : forall tbl eps steps steps', list_R _ _ (S
   prod_R _ _ (list_R _ _ (SV_o_RunLoop_o_row_R Q R QR)) _ _ bool_R (@RunLoop.run Q (QNum tbl) eps steps) (@RunLoop.run R RNum (Q2R eps) steps').
 Proof. exact run_transfer. Qed.
 Print Assumptions C06_exec_run_is_proof_model.
+From SV Require Import ExecProps.
+Theorem C06_exec_losses_bounds : forall tbl soc cap rel fr fa s',
+  (0 < cap)%Q -> (0 <= soc)%Q -> (0 <= rel)%Q -> (rel <= 100)%Q -> (0 <= fr)%Q -> (0 <= fa)%Q ->
+  @apply_losses Q (QNum tbl) soc cap rel fr fa = Ok s' -> (0 <= s')%Q /\ (s' <= soc)%Q.
+Proof. exact losses_exec_bounds. Qed.
+Print Assumptions C06_exec_losses_bounds.
